@@ -842,15 +842,16 @@ func c34Read(b []byte, off, width int) int64 {
 }
 
 // C34ComboValues is the per-field alphabet of the combination family (valid value first).
-// Quick holds only values whose unchecked use is free (an error, or an immediate makeslice
-// panic); thorough adds the exact fit and a 2 MiB length. The expensive boundary values are
-// exercised field by field in the single-field family.
+// Only values whose unchecked use is free (an error, or an immediate makeslice panic); thorough
+// adds the exact fit and one short of it. The values that make an unchecked decoder allocate
+// (2 MiB and up) are exercised field by field in the single-field family: every large
+// allocation costs a worker restart.
 func C34ComboValues(valid, rem int64, thorough bool) []int64 {
 	// 2^63-1 rather than 2^62 as the huge positive: the tail of its encoding (ff..ff 01), when a
 	// mis-aligned parse starts inside it, reads as a negative number instead of as a terabyte length
 	v := []int64{valid, 0, -1, rem + 1, 1<<63 - 1, -(1 << 63)}
 	if thorough {
-		v = append(v, rem, 1<<21)
+		v = append(v, rem, rem-1)
 	}
 	var out []int64
 	seen := map[int64]bool{}
